@@ -116,6 +116,19 @@ func registerIntrinsics(p *Program) {
 		e.Ext["real_meta"] = true
 		return nil, true
 	})
+	// vAssumeWhole: an assumption added to the path condition as one conjunct (one solver query, no splitting)
+	h("vAssumeWhole", func(e *Exec, _ *frame, _ *ssa.Function, a []Value) (Value, bool) {
+		c := a[0].(*T)
+		e.effectAll()
+		if c.IsTrue() {
+			return nil, true
+		}
+		if c.IsFalse() || e.Solver.Check(e.pc, c) == sym.Unsat {
+			panic(pathEnd{Kind: "assume", Msg: "assumption infeasible"})
+		}
+		e.addPC(c)
+		return nil, true
+	})
 	h("vIsConcrete", func(e *Exec, _ *frame, _ *ssa.Function, a []Value) (Value, bool) {
 		t, ok := a[0].(*T)
 		return sym.BoolC(ok && t.IsConst()), true
